@@ -60,13 +60,22 @@ pub fn covers(s: &Setup, r: &AllocResult<KEdge>) {
 
 macro_rules! zstep_bin {
     ($name:ident, $f:ident, $mi:expr, $spec:expr) => {
+        zstep_bin!($name, $f, $mi, $spec, RANK_BIN, 0);
+    };
+    // `$rank`: rank of the operation in the induction measure; `$arity`: see KCache::miss_arity
+    ($name:ident, $f:ident, $mi:expr, $spec:expr, $rank:expr, $arity:expr) => {
         #[kani::proof]
         #[kani::unwind(5)]
         fn $name() {
-            let mut s = setup_z(RANK_BIN, $mi, sym::id_order());
+            let mut s = setup_z($rank, $mi, sym::id_order());
+            s.cache.miss_arity = $arity;
             let f = any_edge_z(&s);
             let g = any_edge_z(&s);
             s.cache.top_level = s.min_level(&[f.borrowed(), g.borrowed()]);
+            if $arity == 3 {
+                // imp(f, g) = ite(f, g, tautology): the tautology node sits on the top-most level
+                s.cache.top_level = 0;
+            }
             let spec: fn(G, G) -> G = $spec;
             let want = spec(s.g(&f), s.g(&g));
             let r = B::$f(&s, &f, &g);
@@ -76,23 +85,24 @@ macro_rules! zstep_bin {
     };
 }
 // set-family view
-zstep_bin!(step_union, union_edge, 3, |a, b| a | b);
-zstep_bin!(step_intsec, intsec_edge, 3, |a, b| a & b);
-zstep_bin!(step_diff, diff_edge, 3, |a, b| a & !b);
+zstep_bin!(step_union, union_edge, 2, |a, b| a | b);
+zstep_bin!(step_intsec, intsec_edge, 2, |a, b| a & b);
+zstep_bin!(step_diff, diff_edge, 2, |a, b| a & !b);
+zstep_bin!(step_union_n3, union_edge, 3, |a, b| a | b);
+zstep_bin!(step_intsec_n3, intsec_edge, 3, |a, b| a & b);
+zstep_bin!(step_diff_n3, diff_edge, 3, |a, b| a & !b);
+zstep_bin!(step_xor_n3, xor_edge, 3, |a, b| a ^ b);
 // Boolean view (same tables; complement = all 2^L assignments)
-zstep_bin!(step_and, and_edge, 3, |a, b| a & b);
-zstep_bin!(step_or, or_edge, 3, |a, b| a | b);
-zstep_bin!(step_xor, xor_edge, 3, |a, b| a ^ b);
-zstep_bin!(step_nand, nand_edge, 3, |a, b| !(a & b));
-zstep_bin!(step_nor, nor_edge, 3, |a, b| !(a | b));
-zstep_bin!(step_equiv, equiv_edge, 3, |a, b| !(a ^ b));
-zstep_bin!(step_imp, imp_edge, 3, |a, b| !a | b);
-zstep_bin!(step_imp_strict, imp_strict_edge, 3, |a, b| !a & b);
+zstep_bin!(step_and, and_edge, 2, |a, b| a & b);
+zstep_bin!(step_or, or_edge, 2, |a, b| a | b);
+zstep_bin!(step_xor, xor_edge, 2, |a, b| a ^ b);
+zstep_bin!(step_imp, imp_edge, 2, |a, b| !a | b, RANK_ITE, 3);
+zstep_bin!(step_imp_strict, imp_strict_edge, 2, |a, b| !a & b);
 
 #[kani::proof]
 #[kani::unwind(5)]
 fn step_not() {
-    let mut s = setup_z(RANK_BIN, 3, sym::id_order());
+    let mut s = setup_z(RANK_BIN, 2, sym::id_order());
     let f = any_edge_z(&s);
     s.cache.top_level = 0;
     let want = !s.g(&f);
@@ -103,7 +113,8 @@ fn step_not() {
 #[kani::proof]
 #[kani::unwind(5)]
 fn step_ite() {
-    let mut s = setup_z(RANK_ITE, 3, sym::id_order());
+    let mut s = setup_z(RANK_ITE, 2, sym::id_order());
+    s.cache.miss_arity = 3;
     let f = any_edge_z(&s);
     let g = any_edge_z(&s);
     let h = any_edge_z(&s);
@@ -132,9 +143,12 @@ macro_rules! zstep_subset {
         }
     };
 }
-zstep_subset!(step_subset0, subset0_edge, 3, subset0_tt);
-zstep_subset!(step_subset1, subset1_edge, 3, subset1_tt);
-zstep_subset!(step_change, change_edge, 3, change_tt);
+zstep_subset!(step_subset0, subset0_edge, 2, subset0_tt);
+zstep_subset!(step_subset0_n3, subset0_edge, 3, subset0_tt);
+zstep_subset!(step_subset1, subset1_edge, 2, subset1_tt);
+zstep_subset!(step_subset1_n3, subset1_edge, 3, subset1_tt);
+zstep_subset!(step_change, change_edge, 2, change_tt);
+zstep_subset!(step_change_n3, change_edge, 3, change_tt);
 
 /// constants, singleton, var, make_node (no recursion through the cache)
 #[kani::proof]
@@ -152,7 +166,7 @@ fn base_constructors() {
     if which == 0 {
         let r = B::singleton_edge(&s, var);
         if let Ok(e) = &r {
-            assert!(s.g(e) == 1 << (1usize << l), "C09: singleton(v) is the family { {v} }");
+            assert!(s.g(e) == 1 << (1usize << l), "C09: singleton(v) is the family containing exactly the set consisting of v");
         }
         assert!(s.wf(), "C03: diagram well-formed after singleton");
     } else if which == 1 {
@@ -174,7 +188,7 @@ fn base_constructors() {
             let (hi2, lo2) = (s.clone_edge(&hi), s.clone_edge(&lo));
             let r = oxidd_rules_zbdd::make_node(&s, &sv, hi2, lo2);
             if let Ok(e) = &r {
-                assert!(s.g(e) == want, "C09: make_node(v, hi, lo) = lo ∪ { s ∪ {v} : s ∈ hi }");
+                assert!(s.g(e) == want, "C09: make_node(v, hi, lo) is lo united with all sets of hi extended by v");
             }
             assert!(s.wf(), "C03: diagram well-formed after make_node");
             kani::cover!(r.is_ok(), "make_node succeeds");
